@@ -38,6 +38,7 @@ pub mod c04;
 #[cfg(feature = "full")]
 pub mod c20;
 pub mod c17;
+pub mod replay;
 
 use report::{Args, Report};
 
